@@ -180,6 +180,149 @@ Theorem veloxchem_no_number_lost : vlx_no_number_lost_stmt.
 Proof. exact VeloxchemSpec.vlx_no_number_lost. Qed.
 Print Assumptions veloxchem_no_number_lost.
 
+(* further writers without a reader, modelled from the code: ORCA, PQS, GAMESS-UK (Model/Orca.v, Pqs.v, GamessUk.v), Jaguar,
+   FHI-aims, BDF (Model/Jaguar.v, Fhiaims.v, Bdf.v).  Each is total on well-formed input and prints every exponent, coefficient,
+   ECP number, r exponent and electron count as a token - with these exceptions, each proved: PQS glues the shell letter to a
+   first exponent with >= 10 characters before the decimal point (aug-cc-pVTZ-J Sc..Zn: no digit is lost, but the number is not
+   a token of its own: pqs_no_digit_lost / pqs_shell_letter_glued); FHI-aims leaves out the coefficient of a one-primitive
+   shell (which the property does not ask for) and rejects every ECP basis at the gate; Jaguar prints an element's ECP only if
+   the element also has electron shells (the recorded known finding, here as jaguar_ecp_only_lost for every input). *)
+From BSE Require Import Model.Orca Proofs.OrcaDefs Model.Pqs Proofs.PqsDefs Model.GamessUk Proofs.GamessUkDefs.
+From BSE Require Import Model.Jaguar Proofs.JaguarDefs Model.Fhiaims Proofs.FhiaimsDefs Model.Bdf Proofs.BdfDefs.
+From BSE Require Proofs.OrcaSpec Proofs.PqsSpec Proofs.GamessUkSpec Proofs.JaguarSpec Proofs.FhiaimsSpec Proofs.BdfSpec.
+
+Theorem orca_write_total : orca_write_total_stmt.
+Proof. exact OrcaSpec.orca_write_total. Qed.
+Print Assumptions orca_write_total.
+
+Theorem orca_no_number_lost : orca_no_number_lost_stmt.
+Proof. exact OrcaSpec.orca_no_number_lost. Qed.
+Print Assumptions orca_no_number_lost.
+
+Theorem orca_ecp_no_number_lost : orca_ecp_no_number_lost_stmt.
+Proof. exact OrcaSpec.orca_ecp_no_number_lost. Qed.
+Print Assumptions orca_ecp_no_number_lost.
+
+Theorem orca_ecp_two_coefficient_columns_raise : orca_ecp_columns_stmt.
+Proof. exact OrcaSpec.orca_ecp_columns. Qed.
+Print Assumptions orca_ecp_two_coefficient_columns_raise.
+
+Theorem orca_example : orca_example_stmt.
+Proof. exact OrcaSpec.orca_example. Qed.
+Print Assumptions orca_example.
+
+Theorem pqs_write_total : pqs_write_total_stmt.
+Proof. exact PqsSpec.pqs_write_total. Qed.
+Print Assumptions pqs_write_total.
+
+Theorem pqs_no_number_lost_when_first_exponent_fits : pqs_no_number_lost_partial_stmt.
+Proof. exact PqsSpec.pqs_no_number_lost_partial. Qed.
+Print Assumptions pqs_no_number_lost_when_first_exponent_fits.
+
+Theorem pqs_no_digit_lost : pqs_no_digit_lost_stmt.
+Proof. exact PqsSpec.pqs_no_digit_lost. Qed.
+Print Assumptions pqs_no_digit_lost.
+
+Theorem pqs_shell_letter_glued : ~ pqs_no_number_lost_stmt.
+Proof. exact PqsSpec.pqs_no_number_lost_counterexample. Qed.
+Print Assumptions pqs_shell_letter_glued.
+
+Theorem pqs_ecp_no_number_lost : pqs_ecp_no_number_lost_stmt.
+Proof. exact PqsSpec.pqs_ecp_no_number_lost. Qed.
+Print Assumptions pqs_ecp_no_number_lost.
+
+Theorem pqs_example : pqs_example_stmt.
+Proof. exact PqsSpec.pqs_example. Qed.
+Print Assumptions pqs_example.
+
+Theorem gamess_uk_write_total : guk_write_total_stmt.
+Proof. exact GamessUkSpec.guk_write_total. Qed.
+Print Assumptions gamess_uk_write_total.
+
+Theorem gamess_uk_no_number_lost : guk_no_number_lost_stmt.
+Proof. exact GamessUkSpec.guk_no_number_lost. Qed.
+Print Assumptions gamess_uk_no_number_lost.
+
+Theorem gamess_uk_ecp_no_number_lost : guk_ecp_no_number_lost_stmt.
+Proof. exact GamessUkSpec.guk_ecp_no_number_lost. Qed.
+Print Assumptions gamess_uk_ecp_no_number_lost.
+
+Theorem gamess_uk_ecp_text_ambiguous : guk_ecp_ambiguous_stmt.
+Proof. exact GamessUkSpec.guk_ecp_ambiguous. Qed.
+Print Assumptions gamess_uk_ecp_text_ambiguous.
+
+Theorem gamess_uk_example : guk_example_stmt.
+Proof. exact GamessUkSpec.guk_example. Qed.
+Print Assumptions gamess_uk_example.
+
+Theorem jaguar_write_total : jag_write_total_stmt.
+Proof. exact JaguarSpec.jag_write_total. Qed.
+Print Assumptions jaguar_write_total.
+
+Theorem jaguar_no_number_lost : jag_no_number_lost_stmt.
+Proof. exact JaguarSpec.jag_no_number_lost. Qed.
+Print Assumptions jaguar_no_number_lost.
+
+Theorem jaguar_ecp_no_number_lost_when_covered : jag_ecp_no_number_lost_stmt.
+Proof. exact JaguarSpec.jag_ecp_no_number_lost. Qed.
+Print Assumptions jaguar_ecp_no_number_lost_when_covered.
+
+Theorem jaguar_ecp_uncovered_ignored : jag_ecp_uncovered_ignored_stmt.
+Proof. exact JaguarSpec.jag_ecp_uncovered_ignored. Qed.
+Print Assumptions jaguar_ecp_uncovered_ignored.
+
+Theorem jaguar_ecp_only_lost : jag_ecp_only_lost_stmt.
+Proof. exact JaguarSpec.jag_ecp_only_lost. Qed.
+Print Assumptions jaguar_ecp_only_lost.
+
+Theorem jaguar_ecp_only_example : jag_ecp_only_example_stmt.
+Proof. exact JaguarSpec.jag_ecp_only_example. Qed.
+Print Assumptions jaguar_ecp_only_example.
+
+Theorem jaguar_example : jag_example_stmt.
+Proof. exact JaguarSpec.jag_example. Qed.
+Print Assumptions jaguar_example.
+
+Theorem fhiaims_write_total : fhi_write_total_stmt.
+Proof. exact FhiaimsSpec.fhi_write_total. Qed.
+Print Assumptions fhiaims_write_total.
+
+Theorem fhiaims_multi_primitive_numbers_kept : fhi_no_number_lost_partial_stmt.
+Proof. exact FhiaimsSpec.fhi_no_number_lost_partial. Qed.
+Print Assumptions fhiaims_multi_primitive_numbers_kept.
+
+Theorem fhiaims_one_primitive_coefficient_omitted : fhi_no_number_lost_counterexample_stmt.
+Proof. exact FhiaimsSpec.fhi_no_number_lost_counterexample. Qed.
+Print Assumptions fhiaims_one_primitive_coefficient_omitted.
+
+Theorem fhiaims_gate_refuses_ecp : fhi_guard_stmt.
+Proof. exact FhiaimsSpec.fhi_guard_facts. Qed.
+Print Assumptions fhiaims_gate_refuses_ecp.
+
+Theorem fhiaims_example : fhi_example_stmt.
+Proof. exact FhiaimsSpec.fhi_example. Qed.
+Print Assumptions fhiaims_example.
+
+Theorem bdf_write_total : bdf_write_total_stmt.
+Proof. exact BdfSpec.bdf_write_total. Qed.
+Print Assumptions bdf_write_total.
+
+Theorem bdf_names_every_element : bdf_all_elements_stmt.
+Proof. exact BdfSpec.bdf_all_elements_facts. Qed.
+Print Assumptions bdf_names_every_element.
+
+Theorem bdf_no_number_lost : bdf_no_number_lost_stmt.
+Proof. exact BdfSpec.bdf_no_number_lost. Qed.
+Print Assumptions bdf_no_number_lost.
+
+Theorem bdf_ecp_no_number_lost : bdf_ecp_no_number_lost_stmt.
+Proof. exact BdfSpec.bdf_ecp_no_number_lost. Qed.
+Print Assumptions bdf_ecp_no_number_lost.
+
+Theorem bdf_example : bdf_example_stmt.
+Proof. exact BdfSpec.bdf_example. Qed.
+Print Assumptions bdf_example.
+
 (* the Gaussian94 ECP blocks: every gaussian exponent / coefficient (with the D marker the writer prints), every r exponent
    and the electron count is a token of the text *)
 From BSE Require Import Model.G94Ecp Proofs.G94EcpDefs.
@@ -187,3 +330,103 @@ From BSE Require Proofs.G94EcpSpec.
 Theorem gaussian94_ecp_no_number_lost : g94_ecp_no_number_lost_stmt.
 Proof. exact G94EcpSpec.g94_ecp_no_number_lost. Qed.
 Print Assumptions gaussian94_ecp_no_number_lost.
+
+(* writers without a reader, modelled from the code (Model/G94Family.v: gaussian94lib, xtron, psi4 - the three variations of
+   write_g94 -, Model/Qchem.v): total on well-formed input, and every exponent, coefficient (with the D marker the writer
+   prints), ECP gaussian exponent / coefficient, r exponent and electron count of the normalised basis is a token of some line.
+   Counterexample theorems: what makes the writers raise (never silently drop) - momentum >= 26, ragged tables, an ECP potential
+   with two coefficient rows (valid for the schema, absent from the store). *)
+From BSE Require Import Model.G94Family Proofs.G94FamilyDefs Model.Qchem Proofs.QchemDefs.
+From BSE Require Proofs.G94FamilySpec Proofs.QchemSpec.
+Theorem g94_family_write_total : g94f_write_total_stmt.
+Proof. exact G94FamilySpec.g94f_write_total. Qed.
+Print Assumptions g94_family_write_total.
+
+Theorem g94_family_no_number_lost : g94f_no_number_lost_stmt.
+Proof. exact G94FamilySpec.g94f_no_number_lost. Qed.
+Print Assumptions g94_family_no_number_lost.
+
+Theorem g94_family_ecp_no_number_lost : g94f_ecp_no_number_lost_stmt.
+Proof. exact G94FamilySpec.g94f_ecp_no_number_lost. Qed.
+Print Assumptions g94_family_ecp_no_number_lost.
+
+Theorem g94_family_flags : g94f_flags_stmt.
+Proof. exact G94FamilySpec.g94f_flags. Qed.
+Print Assumptions g94_family_flags.
+
+Theorem g94_family_am_bound : g94f_am_bound_stmt.
+Proof. exact G94FamilySpec.g94f_am_bound. Qed.
+Print Assumptions g94_family_am_bound.
+
+Theorem g94_family_ecp_anyorder : g94f_ecp_anyorder_stmt.
+Proof. exact G94FamilySpec.g94f_ecp_anyorder. Qed.
+Print Assumptions g94_family_ecp_anyorder.
+
+Theorem g94_family_ecp_coef_rows : g94f_ecp_coef_rows_stmt.
+Proof. exact G94FamilySpec.g94f_ecp_coef_rows. Qed.
+Print Assumptions g94_family_ecp_coef_rows.
+
+Theorem g94_family_example : g94f_example_stmt.
+Proof. exact G94FamilySpec.g94f_example. Qed.
+Print Assumptions g94_family_example.
+
+Theorem gaussian94lib_write_total : g94lib_write_total_stmt.
+Proof. exact G94FamilySpec.g94lib_write_total. Qed.
+Print Assumptions gaussian94lib_write_total.
+
+Theorem gaussian94lib_no_number_lost : g94lib_no_number_lost_stmt.
+Proof. exact G94FamilySpec.g94lib_no_number_lost. Qed.
+Print Assumptions gaussian94lib_no_number_lost.
+
+Theorem gaussian94lib_ecp_no_number_lost : g94lib_ecp_no_number_lost_stmt.
+Proof. exact G94FamilySpec.g94lib_ecp_no_number_lost. Qed.
+Print Assumptions gaussian94lib_ecp_no_number_lost.
+
+Theorem xtron_write_total : xtron_write_total_stmt.
+Proof. exact G94FamilySpec.xtron_write_total. Qed.
+Print Assumptions xtron_write_total.
+
+Theorem xtron_no_number_lost : xtron_no_number_lost_stmt.
+Proof. exact G94FamilySpec.xtron_no_number_lost. Qed.
+Print Assumptions xtron_no_number_lost.
+
+Theorem xtron_ecp_no_number_lost : xtron_ecp_no_number_lost_stmt.
+Proof. exact G94FamilySpec.xtron_ecp_no_number_lost. Qed.
+Print Assumptions xtron_ecp_no_number_lost.
+
+Theorem psi4_write_total : psi4_write_total_stmt.
+Proof. exact G94FamilySpec.psi4_write_total. Qed.
+Print Assumptions psi4_write_total.
+
+Theorem psi4_no_number_lost : psi4_no_number_lost_stmt.
+Proof. exact G94FamilySpec.psi4_no_number_lost. Qed.
+Print Assumptions psi4_no_number_lost.
+
+Theorem psi4_ecp_no_number_lost : psi4_ecp_no_number_lost_stmt.
+Proof. exact G94FamilySpec.psi4_ecp_no_number_lost. Qed.
+Print Assumptions psi4_ecp_no_number_lost.
+
+Theorem qchem_write_total : qchem_write_total_stmt.
+Proof. exact QchemSpec.qchem_write_total. Qed.
+Print Assumptions qchem_write_total.
+
+Theorem qchem_no_number_lost : qchem_no_number_lost_stmt.
+Proof. exact QchemSpec.qchem_no_number_lost. Qed.
+Print Assumptions qchem_no_number_lost.
+
+Theorem qchem_ecp_no_number_lost : qchem_ecp_no_number_lost_stmt.
+Proof. exact QchemSpec.qchem_ecp_no_number_lost. Qed.
+Print Assumptions qchem_ecp_no_number_lost.
+
+Theorem qchem_pure : qchem_pure_stmt.
+Proof. exact QchemSpec.qchem_pure. Qed.
+Print Assumptions qchem_pure.
+
+Theorem qchem_ecp_coef_rows : qchem_ecp_coef_rows_stmt.
+Proof. exact QchemSpec.qchem_ecp_coef_rows. Qed.
+Print Assumptions qchem_ecp_coef_rows.
+
+Theorem qchem_example : qchem_example_stmt.
+Proof. exact QchemSpec.qchem_example. Qed.
+Print Assumptions qchem_example.
+
